@@ -155,7 +155,7 @@ def cover_check(ex, pc):
     return str(r)
 
 
-def discharge_all(ex, obls, timeout_ms=10000, seed=0, budget_s=240.0, max_retry=6):
+def discharge_all(ex, obls, timeout_ms=10000, seed=0, budget_s=150.0, max_retry=3):
     """first a quick pass (2 s per obligation, no refutation search), then the failures again with the
     full timeout and the ground-mode refutation - but only the first few: one failure decides the check"""
     t0 = time.time()
@@ -166,6 +166,7 @@ def discharge_all(ex, obls, timeout_ms=10000, seed=0, budget_s=240.0, max_retry=
         if o.status != 'proved':
             pending.append(o)
     retried = 0
+    second_tries = 0
     seen_names = set()
     for o in pending:
         if time.time() - t0 > budget_s:
@@ -173,7 +174,7 @@ def discharge_all(ex, obls, timeout_ms=10000, seed=0, budget_s=240.0, max_retry=
             continue
         if o.name in seen_names and retried >= max_retry:
             continue
-        if retried >= max_retry * 4:
+        if retried >= max_retry * 2:
             continue
         seen_names.add(o.name)
         retried += 1
@@ -181,7 +182,8 @@ def discharge_all(ex, obls, timeout_ms=10000, seed=0, budget_s=240.0, max_retry=
         spent = o.time
         discharge(ex, o, timeout_ms, seed, want_model=True, ground=True)
         o.time += spent
-        if o.status == 'unknown' and time.time() - t0 < budget_s:
+        if o.status == 'unknown' and time.time() - t0 < budget_s and second_tries < 2:
+            second_tries += 1
             # a timeout is not a refutation: one more attempt with another seed and twice the time
             spent = o.time
             o.status = None
